@@ -463,6 +463,7 @@ pub mod verif_ops {
     use std::sync::Arc;
 
     pub use super::binary_elementwise::{broadcast_shapes, fast_broadcast_cycles_repeats};
+    pub use super::conv::verif_conv::build_im2col;
     use crate::operator::Operator;
 
     /// `TransformInputs` wrapping `inner`, permuting input `index` by `perm`
